@@ -355,7 +355,7 @@ fn dec_strat(_: &Ctx) -> BoxedStrategy<DecCase> {
         b.append(&mut body);
         DecCase::Raw { hex: ber::hex(&b) }
     });
-    let tiny = proptest::sample::select(&["3000", "300102", "30020100", "3003020101", "30050201016100", "30050201016500", "300502010161 7f", "30060201010500a000", "3005020101a000", "30 0c 00 00 00 00 00 00 00 00 00 00 00 00", "30800000", "3084000000020101", "30030201ff", "300a0201018a0130a003", "308100", "30820000", "308400000000", "3080", "30810102", "30028100", "3003020100"][..])
+    let tiny = proptest::sample::select(&["3000", "300102", "30020100", "3003020101", "30050201016100", "30050201016500", "300502010161 7f", "30060201010500a000", "3005020101a000", "30 0c 00 00 00 00 00 00 00 00 00 00 00 00", "30800000", "3084000000020101", "30030201ff", "300a0201018a0130a003", "308100", "30820000", "308400000000", "3080", "30810102", "30028100", "3003020100", "3088ffffffffffffffff", "3088fffffffffffffff6", "30887fffffffffffffff", "30888000000000000000", "3084ffffffff", "30850100000000", "3089010000000000000000", "308affffffffffffffffffff", "3088ffffffffffffffff020101", "300c0201016188ffffffffffffffff"][..])
         .prop_map(|h| DecCase::Raw { hex: h.replace(' ', "") });
     prop_oneof![8 => mutated, 2 => framed_random, 1 => vec(any::<u8>(), 0..48).prop_map(|b| DecCase::Raw { hex: ber::hex(&b) }), 1 => tiny].boxed()
 }
